@@ -152,6 +152,9 @@ pub enum Op {
     ResetFinalMismatch(Ty, i8),
     /// 4.5: RESET_STREAM whose final size is below data already sent
     ResetBelowReceived(Ty),
+    /// 4.5: a FIN (empty STREAM frame) whose final size is below data already sent - whether or not
+    /// the application has consumed that data meanwhile
+    FinBelowReceived(Ty),
     /// 4.5 + 4.1: RESET_STREAM whose final size is above the stream limit
     ResetOverLimit(Ty),
     /// 19.8 / 19.4 / 19.13: STREAM, RESET_STREAM, STREAM_DATA_BLOCKED for the victim's send-only stream
@@ -639,6 +642,7 @@ impl Sys for Threadbound<Adv> {
             } else {
                 if st.end >= 1 {
                     v.push(Op::ResetBelowReceived(ty));
+                    v.push(Op::FinBelowReceived(ty));
                 }
                 v.push(Op::ResetOverLimit(ty));
             }
@@ -823,6 +827,12 @@ impl Adv {
                 let id = s.peer_id(ty, 0);
                 let bytes = s.reset_frame(id, st.end - 1);
                 s.offend(&what, "RFC 9000 4.5: final size below data already sent (data at or beyond the final size -> FINAL_SIZE_ERROR)", &[FINAL], true, bytes)?;
+            }
+            Op::FinBelowReceived(ty) => {
+                let st = s.m.get(ty, 0);
+                let id = s.peer_id(ty, 0);
+                let bytes = s.stream_frame(id, st.end - 1, &[], true);
+                s.offend(&what, "RFC 9000 4.5: FINAL_SIZE_ERROR when a STREAM frame announces a final size below data already sent", &[FINAL], true, bytes)?;
             }
             Op::ResetOverLimit(ty) => {
                 let st = s.m.get(ty, 0);
